@@ -146,11 +146,20 @@ func (m *fsModel) isFileHelper(g *ssa.Function) bool {
 
 // events lists the operations of fn, looking into package helpers (bounded depth).
 func (m *fsModel) events(fn *ssa.Function) []fsEv {
-	return m.eventsDepth(fn, 0, map[*ssa.Function]bool{})
+	return m.eventsDepth(fn, 0, map[*ssa.Function]bool{}, nil)
 }
 
-func (m *fsModel) eventsDepth(fn *ssa.Function, depth int, busy map[*ssa.Function]bool) []fsEv {
-	if depth == 0 {
+// eventsCtx is events for a function that is itself reached through the call chain prefix:
+// path classes are evaluated with the arguments of that chain.
+func (m *fsModel) eventsCtx(fn *ssa.Function, prefix []*ssa.Call) []fsEv {
+	if len(prefix) == 0 {
+		return m.events(fn)
+	}
+	return m.eventsDepth(fn, 0, map[*ssa.Function]bool{}, prefix)
+}
+
+func (m *fsModel) eventsDepth(fn *ssa.Function, depth int, busy map[*ssa.Function]bool, prefix []*ssa.Call) []fsEv {
+	if depth == 0 && len(prefix) == 0 {
 		if evs, ok := m.evMemo[fn]; ok {
 			return evs
 		}
@@ -166,7 +175,7 @@ func (m *fsModel) eventsDepth(fn *ssa.Function, depth int, busy map[*ssa.Functio
 		if op, ok := fsEventOps[name]; ok {
 			ev := fsEv{at: in, prim: call, op: op, direct: true}
 			for i := 0; i < fsMutators[name]; i++ {
-				ev.class = append(ev.class, m.classIn(call.Call.Args[i], nil, 0))
+				ev.class = append(ev.class, m.classIn(call.Call.Args[i], envOfChain(prefix), 0))
 			}
 			out = append(out, ev)
 			return
@@ -175,7 +184,7 @@ func (m *fsModel) eventsDepth(fn *ssa.Function, depth int, busy map[*ssa.Functio
 		if !m.isFileHelper(g) || busy[g] || depth >= 3 {
 			return
 		}
-		for _, ie := range m.eventsDepth(g, depth+1, busy) {
+		for _, ie := range m.eventsDepth(g, depth+1, busy, nil) {
 			isAt := func(x ssa.Instruction) bool { return x == ie.at }
 			ev := fsEv{at: in, prim: ie.prim, op: ie.op, chain: append([]*ssa.Call{call}, ie.chain...)}
 			inner := ie.direct
@@ -189,7 +198,7 @@ func (m *fsModel) eventsDepth(fn *ssa.Function, depth int, busy map[*ssa.Functio
 				res := eng.ReturnResults(ret)
 				return len(res) > 0 && isErrorType(res[len(res)-1].Type()) && !eng.IsNilConst(res[len(res)-1]) && !eng.KnownNil(res[len(res)-1], ret.Block())
 			}, Avoid: isAt}).FromEntry(g) == nil
-			env := envOfChain(ev.chain)
+			env := envOfChain(append(append([]*ssa.Call(nil), prefix...), ev.chain...))
 			for i := 0; i < fsMutators["os."+ie.op]; i++ {
 				ev.class = append(ev.class, m.classIn(ie.prim.Call.Args[i], env, 0))
 			}
@@ -197,7 +206,7 @@ func (m *fsModel) eventsDepth(fn *ssa.Function, depth int, busy map[*ssa.Functio
 		}
 	})
 	delete(busy, fn)
-	if depth == 0 {
+	if depth == 0 && len(prefix) == 0 {
 		if m.evMemo == nil {
 			m.evMemo = map[*ssa.Function][]fsEv{}
 		}
